@@ -1119,6 +1119,14 @@ fn dir_prefix_ext(file_set: impl AsRef<Path>) -> Result<(String, String, String)
         String::new()
     };
 
+    // A template without a directory component, like `app.log`, has an empty parent.
+    // The empty path can't be listed or synced, so use the current directory instead
+    let dir = if dir.is_empty() {
+        String::from(".")
+    } else {
+        dir
+    };
+
     let prefix = file_set
         .file_stem()
         .ok_or_else(|| "paths must include a file name")
